@@ -759,7 +759,7 @@ def get_cascade_data(data, framework, cascade, pops=None, year=None):
     for stage_name, stage_constituents in cascade_dict.items():
         for code_name in stage_constituents:
             if stage_name not in cascade_data:
-                cascade_data[stage_name] = data_values[code_name]
+                cascade_data[stage_name] = data_values[code_name].copy()  # nb. copy, otherwise the += below would also change `data_values` and corrupt the other stages that use this quantity
             else:
                 cascade_data[stage_name] += data_values[code_name]
 
